@@ -127,8 +127,9 @@ class Ctx:
         path = os.path.join(REPLAY_DIR, f'{self.prop}-{self.seed}-{n}.json')
         if n < 25:
             with open(path, 'w') as fh:
-                json.dump(dict(replay, property=self.prop, clause=clause, case_class=klass, tier=self.tier,
-                               seed=self.seed), fh, indent=1, default=str)
+                json.dump(dict({'seed': self.seed}, **dict(replay, property=self.prop, clause=clause, case_class=klass,
+                                                           tier=self.tier, run_seed=self.seed)),
+                          fh, indent=1, default=str)
         self.violations.append({'clause': clause, 'class': klass, 'replay': path})
 
     def sample(self, s):
